@@ -70,6 +70,8 @@ def plain_tfpwa():
         numpy.Inf = numpy.inf
 
 
+setup_paths()  # at import: no later `import tf_pwa` can resolve to another checkout
+
 _counter = itertools.count()
 
 
